@@ -435,6 +435,8 @@ fn exec(
         let pi = op.get("prog").and_then(|x| x.as_u64()).unwrap_or(0) as usize;
         inst.prog = pi;
         inst.observers.clear();
+        inst.delivered.borrow_mut().clear();
+        *inst.lines.borrow_mut() = 0;
         let before = LIVE.load(Ordering::Relaxed);
         r.insert("live_before".into(), json!(before));
         match Story::new(&progs[pi].json) {
@@ -616,6 +618,7 @@ fn exec(
         },
         "load" => {
             let t = slots.get(&s("slot")).cloned().unwrap_or_default();
+            inst.delivered.borrow_mut().clear();
             unit!(st.load_state(&t))
         }
         "load_text" => unit!(st.load_state(&s("text"))),
@@ -627,6 +630,7 @@ fn exec(
                 }
                 st.verif_set_step_fuel(default_fuel);
                 *inst.lines.borrow_mut() = 0;
+                inst.delivered.borrow_mut().clear();
             }
             unit!(res)
         }
@@ -687,7 +691,8 @@ fn exec(
             let rel_j: Vec<J> = rel
                 .iter()
                 .map(|w| json!({"a": w.from, "b": w.to, "rel": w.relative, "isrel": w.is_relative, "ok": w.resolves,
-                                "rt": w.roundtrip, "re": w.reparsed, "reeq": w.reparsed_eq, "heq": w.hash_eq}))
+                                "rt": w.roundtrip, "re": w.reparsed, "reeq": w.reparsed_eq, "heq": w.hash_eq,
+                                "peq": w.paths_eq, "pheq": w.paths_hash_eq}))
                 .collect();
             ok(&mut r);
             r.insert("val".into(), json!({"rows": rows_j, "rel": rel_j}));
